@@ -153,6 +153,12 @@ def check(prop, tier, seed):
                 continue
             if project(spec, c.kind, iv) != project(spec, c.kind, mv):
                 mismatches.append(c)
+        if getattr(spec, 'xcheck', None):
+            # extraction cross-check: the kernel's vm_compute must agree with the extracted OCaml
+            xr = spec.xcheck(lines, model, 40 if tier == 'quick' else 400)
+            stats['extraction_crosscheck'] = {'cases_evaluated_inside_coq': xr['cases'], 'agree': xr['ok']}
+            if not xr['ok']:
+                proof['problems'].append('extraction cross-check failed: ' + xr['log'])
         if spec.needs_release and reldir:
             # the same cases on the release build (wrapping arithmetic, no debug assertions)
             impl_r, _, verdict_r = runner.evaluate(prop, prop + '-release', lines, reldir, obs_bin=spec.obs_bin,
